@@ -342,7 +342,8 @@ fn run_schedule(case: &SchedCase) -> (Vec<Event>, Vec<(String, Value)>) {
     let mut released = vec![false; k];
     let mut popped = 0usize; // handles the engine has taken from the front of the queue
     let poll = |buf: &mut Buffer, step: usize, rel: Option<usize>, released: &Vec<bool>, popped: &mut usize, events: &mut Vec<Event>, bad: &mut Vec<(String, Value)>| {
-        // "never blocks": run the poll on a helper thread and give it 20 s
+        // "never blocks": run the poll on a helper thread. Every decoder it could wait for is held in the gate by this
+        // harness, so a poll that has not returned after POLL_LIMIT_S and returns once the gates are opened was blocked
         let (tx, rx) = std::sync::mpsc::channel();
         let res = std::thread::scope(|s| {
             s.spawn(|| {
@@ -352,7 +353,7 @@ fn run_schedule(case: &SchedCase) -> (Vec<Event>, Vec<(String, Value)>) {
                     Err(e) => format!("Err({e})"),
                 });
             });
-            match rx.recv_timeout(Duration::from_secs(20)) {
+            match rx.recv_timeout(Duration::from_secs(POLL_LIMIT_S)) {
                 Ok(r) => r,
                 Err(_) => {
                     // blocked: release everything so that the scope can end
@@ -366,6 +367,7 @@ fn run_schedule(case: &SchedCase) -> (Vec<Event>, Vec<(String, Value)>) {
         *popped = k - buf.sixel_threads.len();
         let shown = identify(buf, &case.images);
         if res == "BLOCKED" {
+            BLOCKED_POLLS.fetch_add(1, std::sync::atomic::Ordering::SeqCst);
             bad.push(("poll-blocks".into(), json!({"step": step, "held": released.iter().enumerate().filter(|(_, r)| !**r).map(|(i, _)| i).collect::<Vec<_>>()})));
         }
         events.push(Event {
@@ -554,6 +556,13 @@ fn factorial(k: usize) -> u64 {
     (1..=k as u64).product()
 }
 
+/// a poll normally takes microseconds; the limit only has to absorb scheduling delays of a loaded machine
+const POLL_LIMIT_S: u64 = 6;
+/// once a worker has seen this many blocked polls the verdict is settled: the remaining schedules (each of which would
+/// cost POLL_LIMIT_S) are skipped and counted
+const MAX_BLOCKED_POLLS: u64 = 3;
+static BLOCKED_POLLS: std::sync::atomic::AtomicU64 = std::sync::atomic::AtomicU64::new(0);
+
 #[derive(Default)]
 pub struct C14 {
     n_sched: u64,
@@ -573,6 +582,10 @@ impl C14 {
     }
 
     fn exec_sched(&mut self, ctx: &mut Ctx, case: &SchedCase) {
+        if BLOCKED_POLLS.load(std::sync::atomic::Ordering::SeqCst) >= MAX_BLOCKED_POLLS && !ctx.replay {
+            ctx.count("schedules_skipped_after_repeated_blocked_polls", 1);
+            return;
+        }
         let (events, mut bad) = run_schedule(case);
         bad.extend(check_log(case, &events));
         ctx.count("schedules_run", 1);
@@ -597,7 +610,7 @@ impl Prop for C14 {
         "C14"
     }
     fn rule(&self) -> &'static str {
-        "(payload) seeded sixel payloads over data characters, '!' repeats <= 500, '$', '-', '#' selects and RGB/HLS definitions, raster attributes smaller/equal/larger than the data, rows of unequal length: Sixel::parse_from must give picture_data.len()==width*height*4, and with a 4-parameter raster the declared height and (when no drawn pixel lies beyond it) width. (schedule) k<=4 real DCS sixel sequences are fed through the real ANSI parser; every decode thread blocks in the gate hook; for every completion order (k!) x every placement of update_sixel_threads polls (2^k) x 12 geometry classes the harness releases one decode at a time, waits for is_finished, optionally polls (on a helper thread with a 20 s limit: 'never blocks'), records (step, released, polled, result, queue length, images on screen in layer order) and an offline checker compares every record with the model 'fold arrivals in order over the longest finished prefix, newer image removes older ones it contains'. distinct_nontrivial = distinct (class, order, polls) schedules plus distinct (width,height,raster,newline) payload outcomes"
+        "(payload) seeded sixel payloads over data characters, '!' repeats <= 500, '$', '-', '#' selects and RGB/HLS definitions, raster attributes smaller/equal/larger than the data, rows of unequal length: Sixel::parse_from must give picture_data.len()==width*height*4, and with a 4-parameter raster the declared height and (when no drawn pixel lies beyond it) width. (schedule) k<=4 real DCS sixel sequences are fed through the real ANSI parser; every decode thread blocks in the gate hook; for every completion order (k!) x every placement of update_sixel_threads polls (2^k) x 12 geometry classes the harness releases one decode at a time, waits for is_finished, optionally polls (on a helper thread; all decoders it could wait for are held by the harness, so not returning within 6 s but returning once the gates open = blocked; after 3 blocked polls a worker skips its remaining schedules), records (step, released, polled, result, queue length, images on screen in layer order) and an offline checker compares every record with the model 'fold arrivals in order over the longest finished prefix, newer image removes older ones it contains'. distinct_nontrivial = distinct (class, order, polls) schedules plus distinct (width,height,raster,newline) payload outcomes"
     }
     fn meta(&self, ctx: &Ctx) -> Value {
         json!({"floor_evaluations": 2000, "floor_distinct": ctx.tier.pick(500u64, 3000u64), "watchdog_s": 120,
